@@ -12,6 +12,7 @@ import Kvass.Pins.Coord
 import Kvass.Pins.Sidecar
 import Kvass.Props.C03
 import Kvass.Proofs.LoopRepair
+import Kvass.Proofs.LoopStep
 
 namespace Kvass.Props.C06
 open Kvass Kvass.Coord Kvass.Spec
@@ -176,6 +177,73 @@ theorem C06_loop_oneNormal (swr : Swr) (env : Loop.Env) (w : Loop.World) (sc : S
       ra.state = .normal → rb.state = .normal → False :=
   Loop.loop_oneNormal swr env w sc h hrep hne hnc hnd h0
 
+/-- **none stays duplicated for ever** (closed-loop model, the two-holder case in full): two running
+    sidecars report the target in normal state, three scrapes each, nobody else reports it — after
+    one fault-free cycle at most one running sidecar reports it in normal state -/
+theorem C06_loop_duplicate_resolved (swr : Swr) (env : Loop.Env) (w : Loop.World) (sc : Sched)
+    (hrep : w.replicas ≤ w.shards.length)
+    (hne : stopsEarly (Loop.inputOf env w [] false) = false)
+    (hnc : (cycle swr sc (Loop.inputOf env w [] false)).crashed = false)
+    (hnd : ∀ sh ∈ w.running, (Loop.statusOf sh).keys.Nodup)
+    {i j : Nat} {shi shj : Loop.Shard} {h : Hash} {vi vj : St} (hij : i < j) (ha : h ∈ w.active)
+    (hri : w.running[i]? = some shi) (hgi : (Loop.statusOf shi).get h = some vi) (hni : vi.state = .normal) (h3i : 3 ≤ vi.times)
+    (hrj : w.running[j]? = some shj) (hgj : (Loop.statusOf shj).get h = some vj) (hnj : vj.state = .normal) (h3j : 3 ≤ vj.times)
+    (hothers : ∀ k shk, w.running[k]? = some shk → k ≠ i → k ≠ j → (Loop.statusOf shk).get h = none) :
+    ∀ (a b : Nat) (sha shb : Loop.Shard) (ra rb : St), a ≠ b → a < w.replicas → b < w.replicas →
+      (Loop.applyOutcome w [] (cycle swr sc (Loop.inputOf env w [] false))).shards[a]? = some sha →
+      (Loop.applyOutcome w [] (cycle swr sc (Loop.inputOf env w [] false))).shards[b]? = some shb →
+      (Loop.statusOf sha).get h = some ra → (Loop.statusOf shb).get h = some rb →
+      ra.state = .normal → rb.state = .normal → False :=
+  Loop.loop_duplicate_resolved swr env w sc hrep hne hnc hnd hij ha hri hgi hni h3i hrj hgj hnj h3j hothers
+
+/-- **none becomes unscraped** (closed-loop model): a discovered target some running sidecar
+    reports is still reported by some running sidecar after one fault-free cycle -/
+theorem C06_loop_keep (swr : Swr) (env : Loop.Env) (w : Loop.World) (sc : Sched)
+    (hrep : w.replicas ≤ w.shards.length)
+    (hne : stopsEarly (Loop.inputOf env w [] false) = false)
+    (hnc : (cycle swr sc (Loop.inputOf env w [] false)).crashed = false)
+    (hnd : ∀ sh ∈ w.running, (Loop.statusOf sh).keys.Nodup)
+    {i : Nat} {sh : Loop.Shard} {h : Hash} (hrun : w.running[i]? = some sh)
+    (hr : (Loop.statusOf sh).has h = true) (ha : h ∈ w.active) :
+    ∃ (d : Nat) (shd : Loop.Shard), d < w.replicas ∧
+      (Loop.applyOutcome w [] (cycle swr sc (Loop.inputOf env w [] false))).shards[d]? = some shd ∧
+      (Loop.statusOf shd).has h = true :=
+  Loop.loop_keep swr env w sc hrep hne hnc hnd hrun hr ha
+
+/-! ### … and on `Loop.step` itself (requests delivered *and* StatefulSet resized) -/
+
+/-- **no target stays marked in-transfer for ever**, on the closed-loop step the driver replays real
+    histories on: after `Loop.step … (.cycle sc [] false)` a running sidecar reports the target in
+    normal state.  Uses C07 (`keepsNeeded`): every requested shard count exceeds the position of a
+    shard whose plan holds a target, so the resize leaves that shard alone. -/
+theorem C06_step_lonely_repaired (swr : Swr) (env : Loop.Env) (w : Loop.World) (sc : Sched)
+    (hrep : w.replicas ≤ w.shards.length)
+    (hne : stopsEarly (Loop.inputOf env w [] false) = false)
+    (hnc : (cycle swr sc (Loop.inputOf env w [] false)).crashed = false)
+    (hnd : ∀ sh ∈ w.running, (Loop.statusOf sh).keys.Nodup)
+    (hidle : ∀ sh ∈ w.running, Sidecar.IdleInv sh.sc) (hmax : (w.replicas : Int) ≤ env.opt.maxShard)
+    {i : Nat} {sh : Loop.Shard} {h : Hash} {r : St} (hrun : w.running[i]? = some sh)
+    (hr : (Loop.statusOf sh).get h = some r) (hst : r.state = .inTransfer) (h3 : 3 ≤ r.times) (ha : h ∈ w.active)
+    (halone : ∀ k shk, w.running[k]? = some shk → k ≠ i → (Loop.statusOf shk).get h = none) :
+    ∃ (d : Nat) (shd : Loop.Shard) (rd : St), d < (Loop.step swr env w (.cycle sc [] false)).replicas ∧
+      (Loop.step swr env w (.cycle sc [] false)).shards[d]? = some shd ∧
+      (Loop.statusOf shd).get h = some rd ∧ rd.state = .normal :=
+  Loop.step_lonely_repaired swr env w sc hrep hne hnc hnd hidle hmax hrun hr hst h3 ha halone
+
+/-- **none becomes unscraped**, on the closed-loop step: a discovered target some running sidecar
+    reports is reported by a running sidecar after the step, whatever scaling the cycle asked for -/
+theorem C06_step_keep (swr : Swr) (env : Loop.Env) (w : Loop.World) (sc : Sched)
+    (hrep : w.replicas ≤ w.shards.length)
+    (hne : stopsEarly (Loop.inputOf env w [] false) = false)
+    (hnc : (cycle swr sc (Loop.inputOf env w [] false)).crashed = false)
+    (hnd : ∀ sh ∈ w.running, (Loop.statusOf sh).keys.Nodup)
+    (hidle : ∀ sh ∈ w.running, Sidecar.IdleInv sh.sc) (hmax : (w.replicas : Int) ≤ env.opt.maxShard)
+    {i : Nat} {sh : Loop.Shard} {h : Hash} (hrun : w.running[i]? = some sh)
+    (hr : (Loop.statusOf sh).has h = true) (ha : h ∈ w.active) :
+    ∃ (d : Nat) (shd : Loop.Shard), d < (Loop.step swr env w (.cycle sc [] false)).replicas ∧
+      (Loop.step swr env w (.cycle sc [] false)).shards[d]? = some shd ∧ (Loop.statusOf shd).has h = true :=
+  Loop.step_keep swr env w sc hrep hne hnc hnd hidle hmax hrun hr ha
+
 /-- non-vacuity: a world in which shard 0 reports target 1 in transfer (5 scrapes), alone -/
 def exWorld : Loop.World :=
   { shards := [⟨{ targets := [⟨1, 10, 10, .inTransfer, 1⟩], status := [(1, { health := .good, series := 10, total := 10, state := .inTransfer, times := 5 })],
@@ -189,5 +257,13 @@ example : stopsEarly (Loop.inputOf exEnv exWorld [] false) = false ∧
     ((Loop.applyOutcome exWorld [] (cycle (fun x r => x * r / 10) {} (Loop.inputOf exEnv exWorld [] false))).shards.map
       fun sh => (Loop.statusOf sh).map fun p => (p.1, p.2.state)) = [[(1, .normal)], []] := by
   decide
+
+example : ((Loop.step (fun x r => x * r / 10) exEnv exWorld (.cycle {} [] false)).shards.map
+      fun sh => (Loop.statusOf sh).map fun p => (p.1, p.2.state)) = [[(1, .normal)], []] ∧
+    (∀ sh ∈ exWorld.running, Sidecar.IdleInv sh.sc) := by
+  refine ⟨by decide, ?_⟩
+  intro sh hsh
+  simp [exWorld, Loop.World.running] at hsh
+  rcases hsh with rfl | rfl <;> simp [Sidecar.IdleInv]
 
 end Kvass.Props.C06
